@@ -28,10 +28,10 @@ HARNESS = {
 DEFAULT_LIMITS = {
     'quick': dict(max_paths=200000, max_time=240, max_steps=200000,
                   witness_cap=120, export_every=997, export_cap=3,
-                  native_timeout=300, xcheck=40),
+                  native_timeout=300, xcheck=40, solver_timeout=120),
     'thorough': dict(max_paths=3000000, max_time=2400, max_steps=200000,
                      witness_cap=400, export_every=4999, export_cap=4,
-                     native_timeout=900, xcheck=120),
+                     native_timeout=900, xcheck=120, solver_timeout=1200),
 }
 
 
